@@ -140,6 +140,14 @@ fn alphabet(n: usize, tier: Tier) -> Vec<Dev> {
             true
         }));
     }
+    d.push(dev("also derives EnumDiscriminants with strum_discriminants(derive(Display), strum(serialize_all = \"snake_case\", prefix = \"d/\"))", &["discr"], |s| {
+        if !s.generics.is_empty() {
+            return false;
+        }
+        s.extra_attrs.push("#[derive(strum::EnumDiscriminants)]".into());
+        s.extra_attrs.push("#[strum_discriminants(derive(strum::Display), strum(serialize_all = \"snake_case\", prefix = \"d/\"))]".into());
+        true
+    }));
     d.push(dev("const_into_str", &["cis"], |s| {
         s.const_into_str = true;
         true
